@@ -1,0 +1,153 @@
+//go:build verif
+
+package tls
+
+import (
+	"reflect"
+)
+
+// Accessors for the verification harness (family "gen": C04 C09 C31 C32).
+// Add-only, no call sites in library code, compiled only with -tags verif.
+
+// VerifGreaseSeed returns the per-connection GREASE seed chosen by ApplyPreset.
+func VerifGreaseSeed(u *UConn) []uint16 {
+	r := make([]uint16, len(u.greaseSeed))
+	copy(r, u.greaseSeed[:])
+	return r
+}
+
+// VerifGenSuiteInfo exports the flags of one cipher suite table entry.
+type VerifGenSuiteInfo struct {
+	Id    uint16
+	Flags int
+	TLS13 bool // entry of cipherSuitesTLS13
+	TLS12 bool // flags & suiteTLS12
+	ECDHE bool
+	RC4   bool // cipher constructor is cipherRC4
+	Pool  bool // member of the pool the randomized generator draws from
+}
+
+// VerifCipherSuiteTable: cipherSuites (the pool shuffledCiphers draws from), cipherSuitesTLS13
+// (Pool = member of defaultCipherSuitesTLS13) and the uTLS additions.
+func VerifCipherSuiteTable() []VerifGenSuiteInfo {
+	var out []VerifGenSuiteInfo
+	rc4 := reflect.ValueOf(cipherRC4).Pointer()
+	inPool := map[uint16]bool{}
+	for _, s := range cipherSuites {
+		inPool[s.id] = true
+	}
+	seen := map[uint16]bool{}
+	for _, s := range utlsSupportedCipherSuites {
+		if seen[s.id] {
+			continue
+		}
+		seen[s.id] = true
+		out = append(out, VerifGenSuiteInfo{Id: s.id, Flags: s.flags, TLS12: s.flags&suiteTLS12 != 0, ECDHE: s.flags&suiteECDHE != 0,
+			RC4: s.cipher != nil && reflect.ValueOf(s.cipher).Pointer() == rc4, Pool: inPool[s.id]})
+	}
+	def13 := map[uint16]bool{}
+	for _, id := range defaultCipherSuitesTLS13 {
+		def13[id] = true
+	}
+	for _, s := range cipherSuitesTLS13 {
+		out = append(out, VerifGenSuiteInfo{Id: s.id, TLS13: true, Pool: def13[s.id]})
+	}
+	return out
+}
+
+// ---- public <-> private views (C31). Private values are returned as `any` for a reflection dump.
+
+func VerifClientHelloToPrivate(p *PubClientHelloMsg) any { return p.getPrivatePtr() }
+func VerifClientHelloPubRoundTrip(p *PubClientHelloMsg) *PubClientHelloMsg {
+	return p.getPrivatePtr().getPublicPtr()
+}
+
+// VerifClientHelloPrivRoundTrip parses raw into the private form a, and returns a and
+// a.getPublicPtr().getPrivatePtr().
+func VerifClientHelloPrivRoundTrip(raw []byte) (a, b any, ok bool) {
+	m := &clientHelloMsg{}
+	if !m.unmarshal(raw) {
+		return nil, nil, false
+	}
+	return m, m.getPublicPtr().getPrivatePtr(), true
+}
+
+func VerifServerHelloPubRoundTrip(p *PubServerHelloMsg) *PubServerHelloMsg {
+	return p.getPrivatePtr().getPublicPtr()
+}
+func VerifServerHelloPrivRoundTrip(raw []byte) (a, b any, ok bool) {
+	m := &serverHelloMsg{}
+	if !m.unmarshal(raw) {
+		return nil, nil, false
+	}
+	return m, m.getPublicPtr().getPrivatePtr(), true
+}
+func VerifUnmarshalServerHello(raw []byte) *PubServerHelloMsg {
+	m := &serverHelloMsg{}
+	if !m.unmarshal(raw) {
+		return nil
+	}
+	return m.getPublicPtr()
+}
+func VerifMarshalServerHello(p *PubServerHelloMsg) ([]byte, error) {
+	return p.getPrivatePtr().marshal()
+}
+func VerifSetServerShare(p *PubServerHelloMsg, group CurveID, data []byte) {
+	p.ServerShare = keyShare{group: group, data: data}
+}
+func VerifServerShare(p *PubServerHelloMsg) (CurveID, []byte) {
+	return p.ServerShare.group, p.ServerShare.data
+}
+
+func VerifCertReq13PubRoundTrip(p *CertificateRequestMsgTLS13) *CertificateRequestMsgTLS13 {
+	return p.toPrivate().toPublic()
+}
+func VerifCertReq13PrivRoundTrip(raw []byte) (a, b any, ok bool) {
+	m := &certificateRequestMsgTLS13{}
+	if !m.unmarshal(raw) {
+		return nil, nil, false
+	}
+	return m, m.toPublic().toPrivate(), true
+}
+func VerifUnmarshalCertReq13(raw []byte) *CertificateRequestMsgTLS13 {
+	m := &certificateRequestMsgTLS13{}
+	if !m.unmarshal(raw) {
+		return nil
+	}
+	return m.toPublic()
+}
+func VerifMarshalCertReq13(p *CertificateRequestMsgTLS13) ([]byte, error) {
+	return p.toPrivate().marshal()
+}
+
+func VerifKeySharesRoundTrip(ks []KeyShare) []KeyShare {
+	return keyShares(KeyShares(ks).ToPrivate()).ToPublic()
+}
+func VerifPskIdentitiesRoundTrip(ps []PskIdentity) []PskIdentity {
+	return pskIdentities(PskIdentities(ps).ToPrivate()).ToPublic()
+}
+func VerifTicketKeysRoundTrip(ks []TicketKey) []TicketKey {
+	return ticketKeys(TicketKeys(ks).ToPrivate()).ToPublic()
+}
+func VerifKeySharePrivateKeysRoundTrip(k *KeySharePrivateKeys) *KeySharePrivateKeys {
+	return k.ToPrivate().ToPublic()
+}
+func VerifKemPrivateKeyRoundTrip(k *KemPrivateKey) *KemPrivateKey { return k.ToPrivate().ToPublic() }
+
+// VerifCipherSuiteViews returns, for every TLS 1.0-1.2 suite, the private entry, its public view and the
+// private form rebuilt from that view; same for the TLS 1.3 suites.
+func VerifCipherSuiteViews() (priv, pub, back []any) {
+	for _, s := range utlsSupportedCipherSuites {
+		p := s.getPublicObj()
+		priv = append(priv, s)
+		pub = append(pub, &p)
+		back = append(back, p.getPrivatePtr())
+	}
+	for _, s := range cipherSuitesTLS13 {
+		p := s.toPublic()
+		priv = append(priv, s)
+		pub = append(pub, p)
+		back = append(back, p.toPrivate())
+	}
+	return
+}
